@@ -827,11 +827,13 @@ void run_bfd_case(vh::Rng &r, const BfdCfg &cfg) {
     if (t.saw_represent) vh::counter("cases_with_representation");
     if (l.inconclusive) vh::counter("cases_inconclusive");
     vh::note_case(w.sig.h, nontrivial);
-    if (vh::want_sample() && nontrivial && t.saw_backlog && t.rx > 0)
+    int smax = vh::st().args.first != 0 ? 0 : vh::st().args.mode == "grid" ? 1 : 2;     //! first shard only: leave room for the other legs
+    if (vh::want_sample(smax) && nontrivial && t.saw_backlog && t.saw_represent && t.rx > 0 && !t.lenient && !l.broken && l.t2r.accepted > 0
+        && l.t2r.verified == l.t2r.accepted && w.script.size() < 900)
         vh::sample(vh::fmt("{\"mode\":\"bfd\",\"script\":%s,\"sent\":%llu,\"peer_got\":%llu,\"peer_wrote\":%llu,\"presented\":%llu,\"consumed\":%llu,"
                            "\"send_complete\":%llu,\"close_reports\":%d}", vh::jstr(w.script).c_str(),
                            (unsigned long long)l.t2r.accepted, (unsigned long long)l.t2r.verified, (unsigned long long)l.r2t.accepted,
-                           (unsigned long long)t.presented_hi, (unsigned long long)t.consumed, (unsigned long long)t.sc, t.close_reports));
+                           (unsigned long long)t.presented_hi, (unsigned long long)t.consumed, (unsigned long long)t.sc, t.close_reports), smax);
     // teardown: objects first, then the deferred deletions, then the loop
     w.ending = true;
     bfd_delete(t);
@@ -951,7 +953,10 @@ void bind_conn_end(TEnd &t, TcpConnection *conn) {
 bool make_listen_addr(vh::Rng &r) {
     if (tw->unix_family) {
         static int seq = 0;
-        tw->path = vh::fmt("/var/tmp/vc06.%d.%d.sock", (int)getpid(), ++seq);
+        // under the run's scratch directory when that fits into sun_path (108 bytes), else /var/tmp
+        const std::string &od = vh::st().args.out;
+        std::string base = (!od.empty() && od.size() < 70) ? od : std::string("/var/tmp");
+        tw->path = vh::fmt("%s/vc06.%d.%d.sock", base.c_str(), (int)getpid(), ++seq);
         ::unlink(tw->path.c_str());
         tw->addr = SockAddr(DomainSockPath(tw->path));
         return true;
@@ -1272,7 +1277,7 @@ void run_tcp_case(vh::Rng &r) {
     if (repres) vh::counter("cases_with_representation");
     if (incon) vh::counter("cases_inconclusive");
     vh::note_case(w.sig.h, nontrivial);
-    if (vh::want_sample() && nontrivial && rxs > 0 && w.saw_close) {
+    if (vh::st().args.first == 0 && vh::want_sample(2) && nontrivial && rxs > 0 && w.saw_close && backlog && w.script.size() < 900) {
         std::string ls = "[";
         for (auto &l : w.links) {
             if (ls.size() > 1) ls += ",";
@@ -1281,7 +1286,7 @@ void run_tcp_case(vh::Rng &r) {
                           (unsigned long long)l->t.presented_hi, l->t.close_reports, (unsigned long long)l->t.sc);
         }
         ls += "]";
-        vh::sample(vh::fmt("{\"mode\":\"tcp\",\"script\":%s,\"links\":%s}", vh::jstr(w.script).c_str(), ls.c_str()));
+        vh::sample(vh::fmt("{\"mode\":\"tcp\",\"script\":%s,\"links\":%s}", vh::jstr(w.script).c_str(), ls.c_str()), 2);
     }
 
     // ---- teardown (outside callbacks): tbox objects, deferred deletions, raw descriptors, loop
